@@ -1,9 +1,13 @@
 #!/bin/bash
-# try_seed.sh <worktree> <letter> <PROP> [tier]  : apply the seed to /repo, run the check, undo. Prints the first violations and exit code.
+# try_seed.sh <worktree> <letter> <PROP> [tier] : apply the seed to a scratch worktree of /repo (so that background sweeps on /repo are
+# not disturbed), run the check against it (VERIF_REPO), undo. Prints the first violations and the exit code.
 wt=$1; l=$2; p=$3; tier=${4:-quick}
+S=/tmp/repo-seed
 cd /verif
-git -C /repo apply $wt/verif_seed/$l/patch.diff || { echo "apply failed"; exit 2; }
-./check $p $tier > /tmp/try_seed.log 2>&1; rc=$?
-git -C /repo checkout -- .
-grep -v KNOWN-FINDING /tmp/try_seed.log | grep -A1 "^VIOLATION" | head -6 | cut -c1-300
+if [ ! -d $S ]; then git -C /repo worktree add --detach $S HEAD -q; fi
+git -C $S checkout -q --detach $(git -C /repo rev-parse HEAD) 2>/dev/null; git -C $S checkout -q -- .
+git -C $S apply $wt/verif_seed/$l/patch.diff 2>/dev/null || git -C $S apply -3 $wt/verif_seed/$l/patch.diff || { echo "apply failed"; exit 2; }
+VERIF_REPO=$S VERIF_BUILD=/tmp/vb-seed ./check $p $tier > /tmp/try_seed.log 2>&1; rc=$?
+git -C $S checkout -q -- .
+grep -v KNOWN-FINDING /tmp/try_seed.log | grep -A1 "^VIOLATION\|HARNESS-ERROR" | head -6 | cut -c1-300
 echo "SEED $(basename $wt)-$l on $p $tier: exit=$rc"
